@@ -40,7 +40,11 @@ PROPS = {
                  "depth-independent definition then judges every recorded call of nested::hash at depths 0..29 (random, multi-turn, polar, "
                  "adversarial and exact-border positions, release and debug profile) and TLC enumerates every face of small depths and all "
                  "border/corner/pole classes of deep depths, which the harness turns into positions (+-ulp, +-4 turns) and replays. Exhaustive "
-                 "on the classes, sampled on the continuum.",
+                 "on the classes, sampled on the continuum. HashAlgo.tla transcribes hash_v2 (xpm1_and_q, d0h_lh_in_d0c, cast, clamp) on exact "
+                 "rationals; MC_HashAlgo shows that on every lattice point of N in {1,2,3,4} (up to 8 thorough), +-2 turns, either sign of a zero, "
+                 "either branch on the transition latitude, any longitude at a pole and any perturbation of the two projected coordinates below "
+                 "the lattice step (the model of rounding), the returned cell is in the star of the position's face; the variants re-introducing "
+                 "F02 (odd floor masked) or dropping the clamp violate it.",
         "rule": "events = calls nested::hash(depth, lon, lat) on seeded uniform / multi-turn / near-pole / adversarial / cell-border positions "
                 "(all depths 0..29) judged by TLC: returned cell in StarFace(face of the position); generated cases = faces of the cell "
                 "complex enumerated by TLC with their expected stars; non-trivial = distinct events whose position lies on an edge or node "
@@ -48,6 +52,7 @@ PROPS = {
         "assumptions": GEO_ASSUME,
         "stages": [
             {"kind": "mc", "module": "MC_Geo", "cfg": {"quick": "MC_Geo.cfg", "thorough": "MC_Geo_thorough.cfg"}, "workers": 6},
+            {"kind": "mc", "module": "MC_HashAlgo", "cfg": {"quick": "MC_HashAlgo_NestedOK.cfg", "thorough": "MC_HashAlgo_NestedOK_thorough.cfg"}, "workers": 6},
             {"kind": "gen", "module": "Gen_Faces", "cfg": {"quick": "Gen_Faces.cfg", "thorough": "Gen_Faces_thorough.cfg"}, "scenario": "C01",
              "profiles": ["release", "debug"]},
             {"kind": "rec", "scenario": "C01", "count": {"quick": 20000, "thorough": 400000}, "trace_module": "Trace_Geo", "trace_cfg": "Trace_Geo.cfg",
@@ -58,13 +63,17 @@ PROPS = {
         "level": "model_checking",
         "claim": "Model level: refining the complex by 2, the parents of the cells around a fine face are cells around the coarse face "
                  "(checked on every cell of every small subdivision). Code level: for each position the 30 cells returned at depths 0..29 are "
-                 "recorded and TLC checks the parent chain, on positions biased to exact cell borders of every depth.",
+                 "recorded and TLC checks the parent chain, on positions biased to exact cell borders of every depth. "
+                 "MC_HashAlgo (transcription of hash_v2 on exact rationals): the cell computed at subdivision 2N is a child of the cell computed at N "
+                 "for every lattice point and every modelled floating-point choice (the base cell and the in-cell coordinates are depth independent, "
+                 "the depth enters only through an exact scaling).",
         "rule": "one event per position = the 30 cells returned by nested::hash at depths 0..29; TLC requires each to be the parent of the next; "
                 "positions as in C01 with one third built exactly on (or 1-2 ulp off) a cell border of a random depth; non-trivial = all "
                 "distinct events of a non-uniform class",
         "assumptions": GEO_ASSUME,
         "stages": [
             {"kind": "mc", "module": "MC_Geo", "cfg": {"quick": "MC_Geo.cfg", "thorough": "MC_Geo_thorough.cfg"}, "workers": 6},
+            {"kind": "mc", "module": "MC_HashAlgo", "cfg": {"quick": "MC_HashAlgo_HierarchyOK.cfg", "thorough": "MC_HashAlgo_HierarchyOK_thorough.cfg"}, "workers": 6},
             {"kind": "rec", "profiles": ["release", "debug"], "scenario": "C02", "count": {"quick": 6000, "thorough": 150000}, "trace_module": "Trace_Geo", "trace_cfg": "Trace_Geo.cfg",
              "nontrivial": lambda ev: ev.get("cls") != "uniform"},
         ],
@@ -146,13 +155,17 @@ PROPS = {
                  "TLC enumerates every face for NSIDE 1..7 (1..17, 20, 24 thorough) and the seam / pole / transition classes for large and odd "
                  "NSIDE up to 2^29, replayed with +-ulp nudges; recorded calls (hash, hash_with_dxdy with sph_coo inversion, center with "
                  "hash(center(h)) = h and the 4 vertices being the nodes of the cell, rejections) for random NSIDE incl. primes / 2^29-1 / 2^29 "
-                 "are validated by the trace spec.",
+                 "are validated by the trace spec. HashAlgo.tla transcribes ring::hash_with_dldh (deal_with_1x1_box, the correction of cells falling "
+                 "in the gap between two polar triangles, the three index formulae) on exact rationals; MC_HashAlgo shows that it returns the RING "
+                 "index of a containing cell on every lattice point of N in {1,2,3,4} (1..8 thorough) under every modelled floating-point choice; "
+                 "without the gap correction (variant f06) it does not.",
         "rule": "events = ring::hash / hash_with_dxdy / sph_coo / center / vertices / out-of-range calls for seeded NSIDE (small, odd, prime, huge) on "
                 "uniform, adversarial and exact border positions (lon = k*pi/2 in the caps, transition corners, poles); non-trivial = position on an "
                 "edge or node, or non-uniform class, or not a hash event",
         "assumptions": GEO_ASSUME,
         "stages": [
             {"kind": "mc", "module": "MC_Ring", "cfg": {"quick": "MC_Ring.cfg", "thorough": "MC_Ring_thorough.cfg"}, "workers": 6},
+            {"kind": "mc", "module": "MC_HashAlgo", "cfg": {"quick": "MC_HashAlgo_RingOK.cfg", "thorough": "MC_HashAlgo_RingOK_thorough.cfg"}, "workers": 6},
             {"kind": "gen", "profiles": ["release", "debug"], "module": "Gen_Ring", "cfg": {"quick": "Gen_Ring_faces.cfg", "thorough": "Gen_Ring_faces_thorough.cfg"}, "scenario": "C11", "exhaustive": True},
             {"kind": "rec", "profiles": ["release", "debug"], "scenario": "C11", "count": {"quick": 16000, "thorough": 400000}, "trace_module": "Trace_Geo", "trace_cfg": "Trace_Geo.cfg",
              "nontrivial": seamish},
@@ -185,12 +198,15 @@ PROPS = {
                  "N in {1,2,3,4,8} (up to 32 thorough) - facet boundaries, |y| = 1, poles, seams - and the harness checks proj (5 turns, sign, "
                  "range, 1e-14), unproj of the exact point (both signs of x), both round trips and base_cell_from_proj_coo against them. Recorded "
                  "calls on random / adversarial positions are judged by the trace spec (thresholds and base-cell membership in TLC, deviations "
-                 "measured by the bridge's independent C&R implementation).",
+                 "measured by the bridge's independent C&R implementation). base_cell_from_proj_coo is transcribed in HashAlgo.tla and MC_HashAlgo "
+                 "shows on every lattice point (x in [0,8], x = 8, negative x, perturbed coordinates) that it returns a base cell whose closure "
+                 "contains the point; without the final wrap / clamp (variant f10) it does not.",
         "rule": "events = proj / unproj / round trips / base_cell_from_proj_coo on seeded positions (uniform, multi-turn, near-pole, adversarial, "
                 "lattice +-ulp) and out-of-domain rejections; non-trivial = non-uniform class",
         "assumptions": GEO_ASSUME,
         "stages": [
             {"kind": "mc", "module": "MC_Geo", "cfg": {"quick": "MC_Geo.cfg", "thorough": "MC_Geo_thorough.cfg"}, "workers": 6},
+            {"kind": "mc", "module": "MC_HashAlgo", "cfg": {"quick": "MC_HashAlgo_BaseCellOK.cfg", "thorough": "MC_HashAlgo_BaseCellOK_thorough.cfg"}, "workers": 6},
             {"kind": "gen", "module": "Gen_Proj", "cfg": {"quick": "Gen_Proj.cfg", "thorough": "Gen_Proj_thorough.cfg"}, "scenario": "C17", "exhaustive": True,
              "profiles": ["release", "debug"]},
             {"kind": "rec", "scenario": "C17", "count": {"quick": 20000, "thorough": 500000}, "trace_module": "Trace_Geo", "trace_cfg": "Trace_Geo.cfg",
@@ -325,12 +341,17 @@ PROPS = {
                  "(and on the border for the path), interior offsets map where the grid says. TLC generates all cells of small depths and the "
                  "corner / border classes of each base cell at deep depths; recorded calls on random cells and positions (hash_with_dxdy: cell in "
                  "StarFace, equal to hash() off borders, offsets in [0,1], position recovered through the SPECIFICATION's cell origin within 1e-13 "
-                 "rad, sph_coo inverse) are judged by the trace spec; out-of-range cell numbers must panic in every accessor.",
+                 "rad, sph_coo inverse) are judged by the trace spec; out-of-range cell numbers must panic in every accessor. HashAlgo.tla "
+                 "transcribes hash_with_dxdy (proj, shift_rotate_scale, discretize, base_cell_coos, depth0_bits, hash_with_dxdy_out_of_base_cells) "
+                 "on exact rationals and MC_HashAlgo shows on every lattice point (seams, poles, gap squares between the polar triangles included) "
+                 "that the cell contains the position, the offsets are in [0,1] (up to the modelled rounding) and cell origin + offsets is the "
+                 "position as a sphere point; routing the gap squares through depth0_bits (variant nooob) violates it.",
         "rule": "events = cellgeo (center, vertices x4 accessors, 25 sph_coo offsets, edge path, grid, inward-nudged re-hash), hash_dxdy, cell_bad; "
                 "non-trivial = border / seam classes and cells on base-cell borders",
         "assumptions": GEO_ASSUME,
         "stages": [
             {"kind": "mc", "module": "MC_Geo", "cfg": {"quick": "MC_Geo.cfg", "thorough": "MC_Geo_thorough.cfg"}, "workers": 6},
+            {"kind": "mc", "module": "MC_HashAlgo", "cfg": {"quick": "MC_HashAlgo_DxDyOK.cfg", "thorough": "MC_HashAlgo_DxDyOK_thorough.cfg"}, "workers": 6},
             {"kind": "gentrace", "module": "Gen_Neigh", "cfg": {"quick": "Gen_Neigh.cfg", "thorough": "Gen_Neigh_thorough.cfg"}, "scenario": "C03",
              "trace_module": "Trace_Geo", "trace_cfg": "Trace_Geo.cfg", "exhaustive": True},
             {"kind": "rec", "profiles": ["release", "debug"], "scenario": "C03", "count": {"quick": 12000, "thorough": 300000}, "trace_module": "Trace_Geo", "trace_cfg": "Trace_Geo.cfg",
